@@ -101,6 +101,17 @@ fn builder(base: &Path, tree: &TreeSpec, cfg: &WalkCfg) -> WalkBuilder {
     if let Some(ch) = cfg.filter_char {
         b.filter_entry(move |e| !e.file_name().to_string_lossy().contains(ch));
     }
+    if let Some(g) = &cfg.override_glob {
+        let mut ob = ignore::overrides::OverrideBuilder::new(base);
+        ob.add(g).expect("override glob");
+        b.overrides(ob.build().expect("overrides"));
+    }
+    if cfg.type_x {
+        let mut tb = ignore::types::TypesBuilder::new();
+        tb.add("xt", "*.x").expect("type");
+        tb.select("xt");
+        b.types(tb.build().expect("types"));
+    }
     b
 }
 
@@ -309,6 +320,10 @@ fn gen_case_c06(sub: u64, thorough: bool) -> Case {
     }
     cfg.ignore_files = rng.chance(1, 2);
     cfg.hidden = rng.chance(1, 3);
+    if rng.chance(1, 5) {
+        cfg.override_glob = Some(["!d1/", "*.x", "!f1*", "d0/", "!l*"][rng.below(5)].to_string());
+    }
+    cfg.type_x = rng.chance(1, 8);
     Case {
         tree,
         cfg,
@@ -450,7 +465,7 @@ fn check_c06(case: &Case, base: &Path, r: &RunResult, serial: &[Seen]) -> Option
         return Some(Verdict { class, summary: format!("parallel and serial walkers disagree: {d}") });
     }
     // independent listing, when no rule-based filtering is active
-    if !case.cfg.ignore_files && !case.cfg.hidden {
+    if !case.cfg.ignore_files && !case.cfg.hidden && case.cfg.override_glob.is_none() && !case.cfg.type_x {
         let model = model_listing(base, &case.tree, &case.cfg);
         let mm = multiset(&model);
         if let Some(d) = diff_multisets(&sm, &mm, "walkers", "listing") {
